@@ -81,6 +81,10 @@ def type_form(n: dict, tf: str) -> Any:
         return cls
     if tf == "ref":
         return f"sim.worlds.compreg:{cls.__name__}"
+    if tf == "rebound":
+        # a module:attr reference whose attribute is (re)bound by every run to the class it
+        # wants: the reference has to be resolved anew each time it is used
+        return f"sim.worlds.compreg:REBOUND{n.get('rb', 0)}"
     if tf == "ep":
         return "v" + cls.__name__.lower()
     if tf == "decoy":
@@ -478,17 +482,31 @@ class H:
                 add_resource_factory(afac if spec.get("fdur") is not None else sfac, name, types=types, **kw)
             else:
                 v = self.val(rid, bool(spec.get("falsy")))
+                tl = list(types)  # the publisher's own scratch list, re-used right after
                 if spec.get("td"):
                     tdid = f"rtd_{rid}"
 
                     def cb() -> None:
                         sim.log("td_run", td=tdid)
 
-                    kw["teardown_callback"] = cb
-                    add_resource(v, name, types, **kw)
+                    if spec["td"] == "falsy":
+                        # a callable collection of clean-up steps that is still empty
+
+                        class _Steps:
+                            def __len__(self_) -> int:
+                                return 0
+
+                            def __call__(self_) -> None:
+                                cb()
+
+                        kw["teardown_callback"] = _Steps()
+                    else:
+                        kw["teardown_callback"] = cb
+                    add_resource(v, name, tl, **kw)
                     sim.log("td_reg", td=tdid, path=path)
                 else:
-                    add_resource(v, name, types, **kw)
+                    add_resource(v, name, tl, **kw)
+                tl[:] = [compreg.Decoy]
         except Exception as e:
             sim.log("pub_failed", rid=rid, path=path, exc=f"{type(e).__name__}: {e}"[:100])
             raise
@@ -690,6 +708,9 @@ def make_main(plan: dict):
         h = H(sim, plan)
         compreg.CURRENT = h
         sim.user["h"] = h
+        for _p, n_ in walk(plan["tree"]):
+            if "rb" in n_:
+                setattr(compreg, f"REBOUND{n_['rb']}", node_cls(n_))
         root_type, cfg = build_config(plan)
         snap = copy.deepcopy(cfg)
         ids0: dict = {}
@@ -711,6 +732,27 @@ def make_main(plan: dict):
                     if plan.get("nest"):
                         outer = await outer_stack.enter_async_context(Context())
                         outer.add_resource(object(), "outer_marker")
+
+                        async def check_outer(outer: Context = outer, rnd: int = rnd) -> None:
+                            # runs after the calling context has been left: nothing the
+                            # components published may have leaked into the enclosing one
+                            leaks = []
+                            for t_ in RT:
+                                leaks += [f"{t_.__name__}:{k}" for k in outer.get_resources(t_)]
+                            for _p, n_ in walk(plan["tree"]):
+                                for ph_ in ("prepare", "start"):
+                                    for a_ in n_.get(ph_) or ():
+                                        if a_[0] == "pub" and a_[1].get("fac"):
+                                            nm_ = final_name(n_, a_[1], ph_)
+                                            try:
+                                                got_ = outer.get_resource_nowait(RT[a_[1]["t"]], nm_, optional=True)
+                                            except Exception:  # noqa: BLE001  (an async factory is there)
+                                                got_ = "factory"
+                                            if got_ is not None:
+                                                leaks.append(f"factory {a_[1]['rid']}:{nm_}")
+                            sim.log("outer_view", leaks=sorted(set(leaks)), round=rnd)
+
+                        outer_stack.push_async_callback(check_outer)
                     real_ctx = Context()
                     if plan.get("noisy_listener") is not None:
                         # an earlier subscriber of resource_added with a tiny queue nobody
@@ -1540,6 +1582,9 @@ def oracle(sim: Sim, plan: dict) -> list[dict]:
                 if r[4] == "svc_start" and not (r[5]["parent_is_real"] and r[5]["fresh"]):
                     v("C12.task", "svc_parent", f"service task {r[5]['svc']} context: {r[5]}")
         for r in tr:
+            if r[4] == "outer_view" and r[5]["leaks"]:
+                v("C05.ownership", "leaked_to_enclosing_context", f"after the calling context was left the enclosing context holds {r[5]['leaks']}")
+                v("C02.component_parent", "leak_up", f"after the calling context was left the enclosing context holds {r[5]['leaks']}")
             if r[4] == "ctx_exit" and r[5]["exc"] is not None:
                 v("C05.ownership", "exit_exception", f"leaving the calling context raised {r[5]['exc']}")
             if r[4] == "childctx":
@@ -1673,6 +1718,7 @@ class G:
         self.max_nodes = 7 if tier == "quick" else 10
         self.nt = 0
         self.nw = 0
+        self.nrb = 0
         self.ntd = 0
         self.nsvc = 0
         self.ndk = 0
@@ -1726,6 +1772,14 @@ class G:
         else:
             ext = "null"
             alias_form = True
+        if rng.random() < 0.08 and self.nrb < 2:
+            # declared through a module:attr reference to a re-bound module attribute
+            for decl in (hard, ext):
+                if isinstance(decl, dict) and decl.get("tf") == "ref":
+                    decl["tf"] = "rebound"
+                    c["rb"] = self.nrb
+            if "rb" in c:
+                self.nrb += 1
         if alias_form:
             c["alias"] = epname + suffix
         else:
@@ -1803,7 +1857,7 @@ class G:
                             if self.prop in ("C06", "C07", "C05") and rng.random() < 0.4:
                                 spec["fdur"] = rng.choice((0.5, 1.0, 2.0))
                     elif rr < 0.4:
-                        spec["td"] = True
+                        spec["td"] = True if rng.random() < 0.8 else "falsy"
                     if rng.random() < 0.15:
                         spec["desc"] = "d"
                     if self.prop == "C06" and rng.random() < 0.5:
